@@ -12,7 +12,7 @@ import (
 func init() {
 	register(&propDef{
 		id:      "C39",
-		explain: "Structural necessary conditions of 'every child the prefork master starts is signalled, killed after the grace period if needed, and reaped before prefork returns': (R1) the deferred teardown is registered before the first child is spawned; (R2) typestate of every spawned child: on every path from a successful spawn to a return of prefork, to the next spawn, or to a user hook (which may fail or panic), the child has been recorded in the table the teardown iterates over and its Wait goroutine has been started under the WaitGroup the teardown waits on - a child that is recorded but not waited for is signalled but never reaped and is not covered by the kill fallback; (R3) the teardown passes, in this order on every path: cancel, a termination signal to each recorded child, a wait bounded by the grace timer, then kill of each child and an unbounded wait - or returns early only when the bounded wait saw all children exit; (R4) the supervision loop counts every reported exit and returns ErrOverRecovery under a comparison of that count with the RecoverThreshold field itself (not a value substituted for it); each replacement goes through the same spawn typestate. Not decided: operating-system process behaviour, signal delivery, timing.",
+		explain: "Structural necessary conditions of 'every child the prefork master starts is signalled, killed after the grace period if needed, and reaped before prefork returns': (R1) the deferred teardown is registered before the first child is spawned; (R2) typestate of every spawned child: on every path from a successful spawn to a return of prefork, to the next spawn, or to a user hook (which may fail or panic), the child has been recorded in the table the teardown iterates over and its Wait goroutine has been started under the WaitGroup the teardown waits on - a child that is recorded but not waited for is signalled but never reaped and is not covered by the kill fallback; (R3) the teardown passes, in this order on every path: cancel, a termination signal to each recorded child, a wait bounded by the grace timer, then kill of each child and an unbounded wait - or returns early only when the bounded wait saw all children exit; (R4) the supervision loop counts every reported exit and returns ErrOverRecovery under a comparison of that count with the RecoverThreshold field itself (not a value substituted for it); each replacement goes through the same spawn typestate. (R5) every timer armed with RecoverInterval is created in the goroutine that waits for the child, after cmd.Wait() returned - the restart delay counts from the exit, not from the spawn. Not decided: operating-system process behaviour, signal delivery, timing.",
 		run:     runC39,
 	})
 }
@@ -354,5 +354,50 @@ func runC39(p *Prog, r *Report) {
 		r.Check("R4", "prefork returns ErrOverRecovery under a comparison of the exit count with RecoverThreshold", ok, p.Pos(fn.Pos()), "no return of ErrOverRecovery controlled by RecoverThreshold")
 		r.Check("R4", "the exit count is compared with the configured RecoverThreshold itself, not with a value that may have been substituted for it", direct, p.Pos(fn.Pos()),
 			"the threshold in the comparison is merged from RecoverThreshold and something else: with RecoverThreshold = 0 the first exit must already end the master, a substituted default restarts children instead")
+	}
+	// ---- R5: the restart delay counts from the child's exit ----
+	// In the goroutine that waits for a child, the timer (or time.After channel) armed with RecoverInterval is created
+	// after cmd.Wait() returned, in that same goroutine: a timer created when the child was spawned has long fired
+	// for a child that lived longer than the interval, and the child is restarted at once.
+	{
+		var waitFn *ssa.Function
+		var waitCall ssa.Instruction
+		for _, g := range funcAndClosures(waitClosure) {
+			for _, b := range g.Blocks {
+				for _, in := range b.Instrs {
+					if c, ok := in.(ssa.CallInstruction); ok {
+						if f := c.Common().StaticCallee(); f != nil && f.Name() == "Wait" && recvTypeName(f) == "Cmd" {
+							waitFn, waitCall = g, in
+						}
+					}
+				}
+			}
+		}
+		n, after, elsewhere := 0, 0, []string{}
+		for _, g := range funcAndClosures(fn) {
+			for _, b := range g.Blocks {
+				for _, in := range b.Instrs {
+					c, ok := in.(*ssa.Call)
+					if !ok {
+						continue
+					}
+					f := c.Call.StaticCallee()
+					if f == nil || f.Pkg == nil || f.Pkg.Pkg.Path() != "time" || !(f.Name() == "NewTimer" || f.Name() == "After" || f.Name() == "AfterFunc" || f.Name() == "NewTicker") || len(c.Call.Args) == 0 {
+						continue
+					}
+					if _, fv := loadedField(c.Call.Args[0]); fv == nil || fv.Name() != "RecoverInterval" {
+						continue
+					}
+					n++
+					if g == waitFn && waitCall != nil && dominatesInstr(waitCall, in) {
+						after++
+					} else {
+						elsewhere = append(elsewhere, funcName(g)+" at "+p.Pos(c.Pos()))
+					}
+				}
+			}
+		}
+		r.Check("R5", "prefork: the RecoverInterval timer is armed in the Wait goroutine after cmd.Wait() returned", waitFn != nil && n > 0 && after == n, p.Pos(waitClosure.Pos()),
+			fmt.Sprintf("%d of %d timers armed with RecoverInterval are created after the child's exit was observed; others: %s - a delay measured from the spawn has already elapsed for a child that lived longer than RecoverInterval, so it is restarted immediately", after, n, strings.Join(elsewhere, ", ")))
 	}
 }
